@@ -2,6 +2,7 @@ package stress
 
 import (
 	"fmt"
+	"reflect"
 	"runtime"
 	"sort"
 	"strings"
@@ -203,6 +204,75 @@ var families = map[string]script{
 		fmt.Fprint(&b, v, st.RemoveTop(), q.AsArray(), st.AsArray())
 		return b.String()
 	},
+	// collections that hold nothing: whatever stands for "no values" (an empty array, an iterator over
+	// nothing, the empty text) must not be one object handed to every instance
+	"empties": func(id int) string {
+		n := lib.Notation()
+		var b strings.Builder
+		walk := func(name string, it age.IteratorLike[int]) {
+			it.ToEnd()
+			it.ToSlot(id % 3)
+			it.ToSlot(-1 - id%2)
+			fmt.Fprint(&b, name, it.GetSlot(), it.HasNext(), it.HasPrevious(), it.GetSize(), it.IsEmpty())
+			it.ToStart()
+			fmt.Fprint(&b, it.GetSlot(), it.HasNext(), it.HasPrevious(), ";")
+		}
+		l := col.List[int](n).Make()
+		walk("List", l.GetIterator())
+		a := col.Array[int](n).Make(0)
+		walk("Array", a.GetIterator())
+		st := col.Set[int](n).Make()
+		walk("Set", st.GetIterator())
+		sk := col.Stack[int](n).Make()
+		walk("Stack", sk.GetIterator())
+		q := col.Queue[int](n).Make()
+		walk("Queue", q.GetIterator())
+		l2 := col.List[int](n).MakeFromArray(intsFor(id, 3))
+		l2.RemoveAll()
+		walk("emptied", l2.GetIterator())
+		c := col.Catalog[int, int](n).Make()
+		m := col.Map[int, int](n).Make()
+		ci, mi := c.GetIterator(), m.GetIterator()
+		ci.ToEnd()
+		mi.ToEnd()
+		ci.ToSlot(id % 2)
+		mi.ToSlot(-1)
+		fmt.Fprint(&b, ci.GetSlot(), ci.HasNext(), mi.GetSlot(), mi.HasPrevious(), c.GetKeys().AsArray(), m.GetKeys().AsArray())
+		l.SortValues()
+		a.ReverseValues()
+		st.RemoveAll()
+		fmt.Fprint(&b, l.AsArray(), a.AsArray(), st.AsArray(), sk.AsArray(), q.AsArray(), n.FormatValue(l), n.FormatValue(c), l.GetIndex(id), st.ContainsValue(id))
+		l.AppendValue(id)
+		st.AddValue(id)
+		fmt.Fprint(&b, l.AsArray(), st.AsArray())
+		return b.String()
+	},
+	// every instance and every view knows its class: asking for it (also for views that were made without
+	// going through a class, and for element types nobody has used before) is a read of the class registries
+	"classes": func(id int) string {
+		n := lib.Notation()
+		type private struct{ X int } // a key type of this script's own
+		m := col.Map[private, int](n).Make()
+		m.SetValue(private{id}, id) // one key: the order of a Map's views is not defined
+		keys := m.GetKeys()
+		vals := m.GetValues(keys)
+		var b strings.Builder
+		fmt.Fprint(&b, classOf(keys), classOf(vals), classOf(m), keys.GetSize(), vals.AsArray())
+		l := col.List[private](n).MakeFromArray(keys.AsArray())
+		part := l.GetValues(1, 1)
+		fmt.Fprint(&b, classOf(part), classOf(l), classOf(l.GetIterator()), part.AsArray())
+		sibling := l.GetClass().Make()
+		sibling.AppendValue(private{id})
+		fmt.Fprint(&b, sibling.AsArray(), l.GetSize())
+		c := col.Catalog[private, int](n).Make()
+		c.SetValue(private{id}, 1)
+		fmt.Fprint(&b, classOf(c), classOf(c.GetKeys()), classOf(c.AsArray()[0]))
+		q := col.Queue[private](n).MakeFromArray(keys.AsArray())
+		st := col.Stack[private](n).MakeFromSequence(keys)
+		s := col.Set[int](n).MakeFromArray(intsFor(id, 4))
+		fmt.Fprint(&b, classOf(q), classOf(st), classOf(s), classOf(s.GetCollator()), q.GetSize(), st.GetSize())
+		return b.String()
+	},
 	"set-algebra-composite": func(id int) string {
 		S := col.Set[[]int](lib.Notation())
 		a, b := S.MakeFromArray(slicesFor(id, 7)), S.MakeFromArray(slicesFor(id+1, 7))
@@ -212,6 +282,16 @@ var families = map[string]script{
 		x.RemoveValue([]int{})
 		return fmt.Sprint(S.And(a, b).AsArray(), u.AsArray(), x.AsArray(), S.Sans(a, b).AsArray())
 	},
+}
+
+// classOf asks an instance or a view for its class (views come back as plain sequences)
+func classOf(x any) bool {
+	m := reflect.ValueOf(x).MethodByName("GetClass")
+	if !m.IsValid() {
+		return false
+	}
+	out := m.Call(nil)
+	return len(out) == 1 && !out[0].IsNil()
 }
 
 var familyNames = func() []string {
@@ -225,7 +305,7 @@ var familyNames = func() []string {
 
 // pairs of families that are candidates for hidden shared state
 var sharingCandidates = map[string]bool{"format-string": true, "format-notation": true, "sort-composite": true, "sort-int": true, "parse": true, "search-composite": true,
-	"set-algebra-composite": true, "compare-rank": true, "format-after-panic": true, "parse-after-reject": true, "rank-after-cycle": true, "shuffle": true}
+	"set-algebra-composite": true, "compare-rank": true, "format-after-panic": true, "parse-after-reject": true, "rank-after-cycle": true, "shuffle": true, "empties": true, "classes": true}
 
 type indepCase struct {
 	Goroutines []string `json:"goroutines"` // family per goroutine
